@@ -115,7 +115,32 @@ const (
 	fsOs    = "OsFS"
 	fsBase  = "BasePathFS(MemFS)"
 	fsRo    = "RoFS(MemFS)"
+
+	// stacks whose fault seam lies BELOW the wrapper (see seamInside)
+	fsBaseOverFail      = "BasePathFS(FailFS(MemFS))"
+	fsBaseOverFailOrefa = "BasePathFS(FailFS(OrefaFS))"
+	fsRoOverFail        = "RoFS(FailFS(MemFS))"
 )
+
+// seamInside says whether the FailFS of a stack is part of the stack itself,
+// below its wrapper, instead of being put on top of it by run.
+//
+// General lesson: a wrapper that translates the paths found in errors (or maps
+// one error to another) SWITCHES ON THE DYNAMIC TYPE of the error value its
+// base hands it, and every such switch has a default branch. With the seam on
+// top of the wrapper (FailFS(BasePathFS(x))) a fault never passes through the
+// wrapper's own error paths: those are entered only when the layer BELOW fails.
+// So the order of the layers is a dimension - the seam below every wrapper as
+// well as above it - and so is the VALUE the failing primitive returns (see
+// errKindsFor): a *fs.PathError, a *os.LinkError, a bare errno, an opaque error.
+func seamInside(fsName string) bool {
+	switch fsName {
+	case fsBaseOverFail, fsBaseOverFailOrefa, fsRoOverFail:
+		return true
+	}
+
+	return false
+}
 
 // kit is one fresh file system instance: top is what FailFS wraps, raw is the
 // innermost writable file system used for setup and read-back.
@@ -123,8 +148,9 @@ type kit struct {
 	name    string
 	top     avfs.VFS
 	raw     avfs.VFS
-	dir     string // working directory in top's name space
-	rawDir  string // the same directory in raw's name space
+	inner   *failfs.FailFS // the seam, when it is part of the stack (seamInside); nil: run puts it on top
+	dir     string         // working directory in top's name space
+	rawDir  string         // the same directory in raw's name space
 	cleanup func()
 }
 
@@ -164,6 +190,28 @@ func newKit(name string) (*kit, error) {
 	case fsRo:
 		m := memfs.New()
 		k.top, k.raw, k.dir, k.rawDir = rofs.New(m), m, "/c16", "/c16"
+	case fsBaseOverFail, fsBaseOverFailOrefa:
+		var m avfs.VFS = memfs.New()
+		if name == fsBaseOverFailOrefa {
+			m = orefafs.New()
+		}
+
+		if err := m.MkdirAll("/bp", 0o755); err != nil {
+			return nil, fmt.Errorf("%s: MkdirAll /bp: %v", name, err)
+		}
+
+		k.inner = failfs.New(m)
+
+		b, err := basepathfs.NewWithErr(k.inner, "/bp")
+		if err != nil {
+			return nil, fmt.Errorf("%s: %v", name, err)
+		}
+
+		k.top, k.raw, k.dir, k.rawDir = b, m, "/c16", "/bp/c16"
+	case fsRoOverFail:
+		m := memfs.New()
+		k.inner = failfs.New(m)
+		k.top, k.raw, k.dir, k.rawDir = rofs.New(k.inner), m, "/c16", "/c16"
 	default:
 		return nil, fmt.Errorf("unknown file system %q", name)
 	}
@@ -181,7 +229,107 @@ func newKit(name string) (*kit, error) {
 	return k, nil
 }
 
-// putFile writes a file with exact permission bits through the raw file system.
+// wrapped returns the file system the copy is called on and the FailFS in
+// which the faults of that side are injected: the stack's own one, or a new
+// one on top of the stack.
+func (k *kit) wrapped() (call avfs.VFS, seam *failfs.FailFS) {
+	if k.inner != nil {
+		return k.top, k.inner
+	}
+
+	f := failfs.New(k.top)
+
+	return f, f
+}
+
+// chmodBits are the bits chmod(2) sets and stat(2) reports as the file's
+// permissions: rwx for user, group and others AND set-user-ID, set-group-ID
+// and sticky (the library's own "bitmask used for permissions", FileModeMask,
+// is the same twelve bits; every file system of the library stores them all).
+//
+// General lesson: "the same permissions" is judged on ALL the bits the copying
+// primitive (Chmod) carries, not on a projection of them (Perm()): code that
+// skips "setting what is already there" compares through one projection, and
+// an oracle that looks through the same projection cannot see what it skipped.
+const chmodBits = fs.ModePerm | fs.ModeSetuid | fs.ModeSetgid | fs.ModeSticky
+
+// SrcMode and the evidence write modes the Unix way (0o4644 = setuid + rw-r--r--).
+func unixMode(m uint32) fs.FileMode {
+	fm := fs.FileMode(m & 0o777)
+
+	if m&0o4000 != 0 {
+		fm |= fs.ModeSetuid
+	}
+
+	if m&0o2000 != 0 {
+		fm |= fs.ModeSetgid
+	}
+
+	if m&0o1000 != 0 {
+		fm |= fs.ModeSticky
+	}
+
+	return fm
+}
+
+func unixBits(fm fs.FileMode) uint32 {
+	m := uint32(fm.Perm())
+
+	if fm&fs.ModeSetuid != 0 {
+		m |= 0o4000
+	}
+
+	if fm&fs.ModeSetgid != 0 {
+		m |= 0o2000
+	}
+
+	if fm&fs.ModeSticky != 0 {
+		m |= 0o1000
+	}
+
+	return m
+}
+
+// modeExpr renders a Unix mode as a Go expression of type fs.FileMode.
+func modeExpr(m uint32) string {
+	e := fmt.Sprintf("fs.FileMode(%#o)", m&0o777)
+
+	for _, b := range []struct {
+		bit  uint32
+		name string
+	}{{0o4000, "fs.ModeSetuid"}, {0o2000, "fs.ModeSetgid"}, {0o1000, "fs.ModeSticky"}} {
+		if m&b.bit != 0 {
+			e += "|" + b.name
+		}
+	}
+
+	return e
+}
+
+// specialName names the special bits of a Unix mode, for signatures.
+func specialName(m uint32) string {
+	var parts []string
+
+	for _, b := range []struct {
+		bit  uint32
+		name string
+	}{{0o4000, "setuid"}, {0o2000, "setgid"}, {0o1000, "sticky"}} {
+		if m&b.bit != 0 {
+			parts = append(parts, b.name)
+		}
+	}
+
+	return strings.Join(parts, "+")
+}
+
+// putFile writes a file with exact mode bits through the raw file system.
+//
+// The set-up goes through the code under test too (WriteFile, Chmod of the
+// innermost file system), so it must not rely on the very step a shortcut
+// would skip: the mode is reached by a route on which every Chmod changes the
+// rwx bits (0 first, then the mode wanted), and the state reached is read back
+// - a start state that is not the one the scenario names is a harness error,
+// never a silently different scenario.
 func (k *kit) putFile(base string, data []byte, mode fs.FileMode) error {
 	p := k.raw.Join(k.rawDir, base)
 
@@ -189,7 +337,24 @@ func (k *kit) putFile(base string, data []byte, mode fs.FileMode) error {
 		return err
 	}
 
-	return k.raw.Chmod(p, mode)
+	if err := k.raw.Chmod(p, 0); err != nil {
+		return err
+	}
+
+	if err := k.raw.Chmod(p, mode); err != nil {
+		return err
+	}
+
+	fi, err := k.raw.Stat(p)
+	if err != nil {
+		return err
+	}
+
+	if fi.Mode()&chmodBits != mode&chmodBits {
+		return fmt.Errorf("set-up: %s has mode %v after Chmod(%v)", p, fi.Mode(), mode)
+	}
+
+	return nil
 }
 
 // ---------------------------------------------------------------------------
@@ -216,10 +381,16 @@ const (
 	kSymDir     = "symlink-dir"      // src/dst: link to a directory
 	kDstAbsent  = "absent"           // dst: nothing                              (plain)
 	kDstPresent = "present"          // dst: file with other content and mode    (plain)
+	kDstSpecial = "present-special"  // dst: such a file whose mode also has setgid and sticky
 )
 
 // other is the content and mode of a destination file that exists beforehand.
 const otherMode = 0o660
+
+// otherSpecial is the mode of a destination that carries special bits
+// beforehand: the rwx bits of otherMode, so that a source of mode otherMode
+// differs from it in the special bits only.
+const otherSpecial = otherMode | fs.ModeSetgid | fs.ModeSticky
 
 func otherData(size int) []byte { return pattern(size+4097, 0xA5) }
 
@@ -248,7 +419,7 @@ func isLinkKind(kind string) bool { return strings.HasPrefix(kind, "symlink") }
 
 // fsSupports is a fixed table (not the feature flags of the code under test).
 func fsSupports(fsName, kind string) bool {
-	if isLinkKind(kind) && fsName == fsOrefa {
+	if isLinkKind(kind) && (fsName == fsOrefa || fsName == fsBaseOverFailOrefa) {
 		return false
 	}
 
@@ -309,6 +480,8 @@ func (k *kit) putDest(kind string, size int) error {
 		return nil
 	case kDstPresent:
 		return k.putFile("dst.bin", otherData(size), otherMode)
+	case kDstSpecial:
+		return k.putFile("dst.bin", otherData(size), otherSpecial)
 	case kDir:
 		return v.Mkdir(j("dst.bin"), 0o755)
 	case kDirFull:
@@ -643,7 +816,7 @@ type plan struct {
 	Side      string `json:"side,omitempty"`
 	Primitive string `json:"primitive,omitempty"`
 	Nth       int    `json:"nth_of_primitive_on_side,omitempty"` // 1-based
-	Err       string `json:"error,omitempty"`                    // sentinel | permdenied
+	Err       string `json:"error,omitempty"`                    // sentinel | permdenied | errno | linkerror
 }
 
 type cons struct {
@@ -732,13 +905,23 @@ var emptyDigest = sha512.Sum512(nil)
 
 var errSentinel = errors.New("c16: injected sentinel failure")
 
+// injected is the VALUE the failing primitive returns: an opaque error, a
+// *fs.PathError (what the primitives of the library document), and - below a
+// wrapper, see errKindsFor - a bare errno and a *os.LinkError.
 func injected(kind string, fp *failfs.FailParam) error {
-	if kind == "permdenied" {
+	switch kind {
+	case "permdenied":
 		return &fs.PathError{Op: fp.Op, Path: fp.Path, Err: avfs.ErrPermDenied}
+	case "errno":
+		return errnoInjected
+	case "linkerror":
+		return &os.LinkError{Op: fp.Op, Old: fp.Path, New: fp.Path, Err: errnoInjected}
 	}
 
 	return errSentinel
 }
+
+const errnoInjected = syscall.EIO
 
 // pattern is the deterministic, non-constant, non-32K-periodic source content.
 func pattern(n int, salt byte) []byte {
@@ -797,7 +980,7 @@ func run(sc scenario, pl plan) (res result, herr error) {
 
 	srcData := pattern(sc.Size, 0)
 
-	if err = srcKit.putSource(sc.SrcKind, srcData, fs.FileMode(sc.SrcMode)); err != nil {
+	if err = srcKit.putSource(sc.SrcKind, srcData, unixMode(sc.SrcMode)); err != nil {
 		return res, harnessError{fmt.Sprintf("setup of source (%s) on %s: %v", sc.srcKind(), sc.SrcFS, err)}
 	}
 
@@ -824,8 +1007,32 @@ func run(sc scenario, pl plan) (res result, herr error) {
 		preFired bool
 	)
 
+	// A primitive of an open file may have no path to report (FailFS gives
+	// Sync the placeholder avfs.NotImplemented): an injected *PathError then
+	// names that side's file in the name space of the seam, as the error of a
+	// real base file system would - a wrapper translates that path back.
 	mk := func(side string) failfs.FailFunc {
 		return func(_ avfs.VFSBase, fn avfs.FnVFS, fp *failfs.FailParam) error {
+			if fp.Path == avfs.NotImplemented || fp.Path == "" {
+				k, base := srcKit, "src.bin"
+				if side == "dst" {
+					k, base = dstKit, "dst.bin"
+				}
+
+				if inPre {
+					base = map[string]string{"src": "pre.bin", "dst": "pre.out"}[side]
+				}
+
+				q := *fp
+				fp = &q
+
+				if k.inner != nil {
+					fp.Path = k.raw.Join(k.rawDir, base)
+				} else {
+					fp.Path = k.top.Join(k.dir, base)
+				}
+			}
+
 			if inPre {
 				// the earlier call has its own consultation index and plan
 				idx := len(preTrace)
@@ -853,14 +1060,23 @@ func run(sc scenario, pl plan) (res result, herr error) {
 		}
 	}
 
-	srcFail := failfs.New(srcKit.top)
-	_ = srcFail.SetFailFunc(mk("src"))
+	// srcFail/dstFail are what the calls are made on; the seams are where the
+	// faults are injected (the same object unless the seam is inside the stack).
+	// The failure functions are installed after the set-up, right before the
+	// first call under test.
+	if dstKit == srcKit && srcKit.inner != nil && !isHash {
+		return res, harnessError{fmt.Sprintf("%s: one instance with its seam inside cannot tell the source side from the destination side", sc)}
+	}
 
-	var dstFail *failfs.FailFS
+	srcFail, srcSeam := srcKit.wrapped()
+
+	var (
+		dstFail avfs.VFS
+		dstSeam *failfs.FailFS
+	)
 
 	if !isHash || preCopies {
-		dstFail = failfs.New(dstKit.top)
-		_ = dstFail.SetFailFunc(mk("dst"))
+		dstFail, dstSeam = dstKit.wrapped()
 	}
 
 	var hasher hash.Hash
@@ -906,6 +1122,12 @@ func run(sc scenario, pl plan) (res result, herr error) {
 				return res, harnessError{fmt.Sprintf("%s: preparing the spelling on %s: %v", sc, sd.k.name, perr)}
 			}
 		}
+	}
+
+	_ = srcSeam.SetFailFunc(mk("src"))
+
+	if dstSeam != nil {
+		_ = dstSeam.SetFailFunc(mk("dst"))
 	}
 
 	// The earlier call of a two-call history: another file, the same hasher,
@@ -1002,7 +1224,8 @@ func run(sc scenario, pl plan) (res result, herr error) {
 		var pe *fs.PathError
 
 		res.ErrIsInj = errors.Is(rerr, errSentinel) ||
-			(pl.Err == "permdenied" && errors.As(rerr, &pe) && pe.Err == avfs.ErrPermDenied)
+			(pl.Err == "permdenied" && errors.As(rerr, &pe) && pe.Err == avfs.ErrPermDenied) ||
+			((pl.Err == "errno" || pl.Err == "linkerror") && errors.Is(rerr, errnoInjected))
 	}
 
 	if sum != nil {
@@ -1030,10 +1253,10 @@ func run(sc scenario, pl plan) (res result, herr error) {
 			return res, harnessError{fmt.Sprintf("stat of source on %s: %v", sc.SrcFS, serr)}
 		}
 
-		srcPerm = srcInfo.Mode().Perm()
+		srcPerm = srcInfo.Mode() & chmodBits
 		res.SrcLen = len(srcNow)
-		res.SrcChanged = !bytes.Equal(srcNow, srcData) || srcPerm != fs.FileMode(sc.SrcMode) || !srcInfo.Mode().IsRegular()
-		res.SrcPerm = fmt.Sprintf("%#o", srcPerm)
+		res.SrcChanged = !bytes.Equal(srcNow, srcData) || srcPerm != unixMode(sc.SrcMode) || !srcInfo.Mode().IsRegular()
+		res.SrcPerm = fmt.Sprintf("%#o", unixBits(srcPerm))
 	}
 
 	if !sc.plain() && srcKit.snapshot("src") != srcBefore {
@@ -1055,8 +1278,8 @@ func run(sc scenario, pl plan) (res result, herr error) {
 		if serr == nil {
 			res.DstExists = true
 			res.DstRegular = dstInfo.Mode().IsRegular()
-			res.DstPerm = fmt.Sprintf("%#o", dstInfo.Mode().Perm())
-			res.PermEqual = srcIsFile(sc.SrcKind) && dstInfo.Mode().Perm() == srcPerm
+			res.DstPerm = fmt.Sprintf("%#o", unixBits(dstInfo.Mode()))
+			res.PermEqual = srcIsFile(sc.SrcKind) && dstInfo.Mode()&chmodBits == srcPerm
 		}
 
 		if res.DstRegular {
@@ -1169,6 +1392,11 @@ func (b *book) add(sc scenario, side, prim, kind string, extra map[string]string
 		if sc.Func != "HashFile" {
 			sig["dst_kind"] = sc.DstState
 		}
+	}
+
+	// the special bits of the source's mode, when it has any
+	if sp := specialName(sc.SrcMode); sp != "" {
+		sig["src_mode_special"] = sp
 	}
 
 	// likewise the state of the hasher on entry, when it is not a fresh one
@@ -1315,7 +1543,7 @@ func goTest(sc scenario, pl plan, required bool) string {
 	preData := pattern(%d, %#x)
 	put(t, srcRaw, srcRaw.Join(srcRawDir, "pre.bin"), preData, 0o644)
 	n = %d // counts up to 0, where the earlier call's consultation fails
-	prePermDenied = %v
+	preErrKind = %q
 	preSum, preErr := %s
 	t.Logf("earlier call: error %%v", preErr)
 	n = 0
@@ -1323,7 +1551,7 @@ func goTest(sc scenario, pl plan, required bool) string {
 		if d := sha512.Sum512(preData); preErr == nil && !bytes.Equal(preSum, d[:]) {
 			t.Errorf("the digest the earlier call returned with a nil error is not (or no longer) the digest of its bytes: %%x", preSum)
 		}
-	}()`, b.Func, b.Size, b.Plan.K, b.Plan.Side, b.Plan.Primitive, b.Plan.Nth, b.Size, preSalt, map[bool]int{true: -1 - b.Plan.K, false: -1 << 30}[b.Plan.K >= 0], b.Plan.Err == "permdenied", pcall)
+	}()`, b.Func, b.Size, b.Plan.K, b.Plan.Side, b.Plan.Primitive, b.Plan.Nth, b.Size, preSalt, map[bool]int{true: -1 - b.Plan.K, false: -1 << 30}[b.Plan.K >= 0], b.Plan.Err, pcall)
 	}
 
 	var call string
@@ -1365,6 +1593,7 @@ import (
 	"io/fs"
 	"os"
 	"strings"
+	"syscall"
 	"testing"
 
 	"github.com/avfs/avfs"
@@ -1378,11 +1607,49 @@ import (
 
 var _ hash.Hash = sha512.New()
 
-var prePermDenied bool // the error injected into the earlier call of a two-call history is a PathError wrapping avfs.ErrPermDenied
+var preErrKind string // kind of the error injected into the earlier call of a two-call history (see inject)
 
-// mkfs returns the file system FailFS wraps, the innermost writable one, and the working directory in both name spaces.
-func mkfs(t *testing.T, kind string) (top, raw avfs.VFS, dir, rawDir string) {
+// inject is the value the failing primitive returns.
+func inject(kind string, fp *failfs.FailParam) error {
 	switch kind {
+	case "permdenied":
+		return &fs.PathError{Op: fp.Op, Path: fp.Path, Err: avfs.ErrPermDenied}
+	case "errno":
+		return syscall.EIO
+	case "linkerror":
+		return &os.LinkError{Op: fp.Op, Old: fp.Path, New: fp.Path, Err: syscall.EIO}
+	}
+	return errors.New("injected")
+}
+
+// mkfs returns the file system the copy is called on, the FailFS in which the faults are injected (on top of the stack, or
+// inside it below the wrapper), the stack without a FailFS on top, the innermost writable file system, and the working
+// directory in both name spaces.
+func mkfs(t *testing.T, kind string) (call avfs.VFS, seam *failfs.FailFS, top, raw avfs.VFS, dir, rawDir string) {
+	defer func() {
+		if seam == nil {
+			seam = failfs.New(top)
+			call = seam
+		}
+		if err := raw.MkdirAll(rawDir, 0o755); err != nil {
+			t.Fatal(err)
+		}
+	}()
+	switch kind {
+	case "BasePathFS(FailFS(MemFS))", "BasePathFS(FailFS(OrefaFS))":
+		var m avfs.VFS = memfs.New()
+		if kind == "BasePathFS(FailFS(OrefaFS))" {
+			m = orefafs.New()
+		}
+		_ = m.MkdirAll("/bp", 0o755)
+		seam = failfs.New(m)
+		top, raw, dir, rawDir = basepathfs.New(seam, "/bp"), m, "/c16", "/bp/c16"
+		call = top
+	case "RoFS(FailFS(MemFS))":
+		m := memfs.New()
+		seam = failfs.New(m)
+		top, raw, dir, rawDir = rofs.New(seam), m, "/c16", "/c16"
+		call = top
 	case "MemFS":
 		m := memfs.New()
 		top, raw, dir, rawDir = m, m, "/c16", "/c16"
@@ -1401,9 +1668,6 @@ func mkfs(t *testing.T, kind string) (top, raw avfs.VFS, dir, rawDir string) {
 		m := memfs.New()
 		top, raw, dir, rawDir = rofs.New(m), m, "/c16", "/c16"
 	}
-	if err := raw.MkdirAll(rawDir, 0o755); err != nil {
-		t.Fatal(err)
-	}
 	return
 }
 
@@ -1421,9 +1685,15 @@ func must(t *testing.T, err error) {
 	}
 }
 
+const chmodBits = fs.ModePerm | fs.ModeSetuid | fs.ModeSetgid | fs.ModeSticky
+
 func put(t *testing.T, v avfs.VFS, p string, data []byte, mode fs.FileMode) {
 	must(t, v.WriteFile(p, data, 0o644))
+	must(t, v.Chmod(p, 0)) // every Chmod of the set-up changes the rwx bits
 	must(t, v.Chmod(p, mode))
+	if fi, err := v.Stat(p); err != nil || fi.Mode()&chmodBits != mode&chmodBits {
+		t.Fatalf("set-up: %%s has mode %%v after Chmod(%%v) (%%v)", p, fi.Mode(), mode, err)
+	}
 }
 
 // plant makes the path <stem>.bin of the given kind in dir of the innermost file system; the node behind a link is <stem>.real.
@@ -1432,6 +1702,8 @@ func plant(t *testing.T, v avfs.VFS, dir, stem, kind string, data []byte, mode f
 	switch kind {
 	case "file", "present":
 		put(t, v, bin, data, mode)
+	case "present-special":
+		put(t, v, bin, data, mode|fs.ModeSetgid|fs.ModeSticky)
 	case "missing", "absent":
 	case "dir":
 		must(t, v.Mkdir(bin, 0o755))
@@ -1503,7 +1775,7 @@ func TestC16Replay(t *testing.T) {
 		srcSpell   = %q // how the source operand is written ("": shortest absolute name)
 		dstSpell   = %q // how the destination operand is written
 		size       = %d
-		srcMode    = %#o
+		srcMode    = %s
 		srcKind    = %q // what the source path is
 		dstKind    = %q // what the destination path is
 		isCopy     = %v
@@ -1511,13 +1783,15 @@ func TestC16Replay(t *testing.T) {
 		canSucceed = %v // the source (links followed) is a file and the destination is not a directory
 		k          = %d // index of the failing consultation: %s
 		mustReport = %v // a failure of that primitive is in the property's list
-		permDenied = %v // the injected error is a PathError wrapping avfs.ErrPermDenied
+		errKind    = %q // the value the failing primitive returns (see inject)
 		withDigest = %v
 	)
-	srcTop, srcRaw, srcDir, srcRawDir := mkfs(t, %q)
-	dstTop, dstRaw, dstDir, dstRawDir := srcTop, srcRaw, srcDir, srcRawDir
+	var src, dst avfs.VFS
+	src, srcSeam, srcTop, srcRaw, srcDir, srcRawDir := mkfs(t, %q)
+	dstSeam, dstTop, dstRaw, dstDir, dstRawDir := failfs.New(srcTop), srcTop, srcRaw, srcDir, srcRawDir
+	dst = dstSeam
 	if !shared {
-		dstTop, dstRaw, dstDir, dstRawDir = mkfs(t, %q)
+		dst, dstSeam, dstTop, dstRaw, dstDir, dstRawDir = mkfs(t, %q)
 	}
 	plant(t, srcRaw, srcRawDir, "src", srcKind, pattern(size, 0), srcMode)
 	if isCopy {
@@ -1527,24 +1801,17 @@ func TestC16Replay(t *testing.T) {
 	ff := func(_ avfs.VFSBase, _ avfs.FnVFS, fp *failfs.FailParam) error {
 		n++
 		if n == 0 {
-			if prePermDenied {
-				return &fs.PathError{Op: fp.Op, Path: fp.Path, Err: avfs.ErrPermDenied}
-			}
-			return errors.New("injected (earlier call)")
+			return inject(preErrKind, fp)
 		}
 		if n-1 == k {
-			if permDenied {
-				return &fs.PathError{Op: fp.Op, Path: fp.Path, Err: avfs.ErrPermDenied}
-			}
-			return errors.New("injected")
+			return inject(errKind, fp)
 		}
 		return nil
 	}
-	src, dst := failfs.New(srcTop), failfs.New(dstTop)
-	_ = src.SetFailFunc(ff)
-	_ = dst.SetFailFunc(ff)
 	srcPath := spell(t, srcTop, srcRaw, srcDir, srcRawDir, "src.bin", srcSpell)
 	dstPath := spell(t, dstTop, dstRaw, dstDir, dstRawDir, "dst.bin", dstSpell)
+	_ = srcSeam.SetFailFunc(ff)
+	_ = dstSeam.SetFailFunc(ff)
 	_, _ = dst, dstPath
 	%s
 	if err != nil {
@@ -1573,16 +1840,16 @@ func TestC16Replay(t *testing.T) {
 		if gerr != nil || !bytes.Equal(got, want) {
 			t.Fatalf("nil error but the destination holds %%d bytes that differ from the %%d of the source (%%v)", len(got), len(want), gerr)
 		}
-		if di.Mode().Perm() != si.Mode().Perm() {
-			t.Fatalf("nil error but the destination has permission bits %%#o, the source file %%#o", di.Mode().Perm(), si.Mode().Perm())
+		if di.Mode()&chmodBits != si.Mode()&chmodBits { // rwx and setuid, setgid, sticky: the bits Chmod carries
+			t.Fatalf("nil error but the destination has mode %%v, the source file %%v", di.Mode(), si.Mode())
 		}
 	}
 	if d := sha512.Sum512(want); withDigest && !bytes.Equal(sum, d[:]) || !withDigest && len(sum) != 0 {
 		t.Fatalf("nil error but the digest is %%x", sum)
 	}
 }
-`, sc.SrcSpell, sc.DstSpell, sc.Size, sc.SrcMode, sc.srcKind(), sc.DstState, sc.Func != "HashFile", shared, sc.possible(),
-		pl.K, failing, required, pl.Err == "permdenied", sc.Hasher == "sha512", sc.SrcFS, dstFS, call)
+`, sc.SrcSpell, sc.DstSpell, sc.Size, modeExpr(sc.SrcMode), sc.srcKind(), sc.DstState, sc.Func != "HashFile", shared, sc.possible(),
+		pl.K, failing, required, pl.Err, sc.Hasher == "sha512", sc.SrcFS, dstFS, call)
 }
 
 func replayObj(sc scenario, pl plan, base []cons, res result, expected string) any {
@@ -1593,7 +1860,8 @@ func replayObj(sc scenario, pl plan, base []cons, res result, expected string) a
 		"expected":         expected,
 		"observed":         res,
 		"source_content":   "b[i] = byte(i*7+i/251) ^ byte(i>>11), i < size; for the link kinds of source the file is src.real and src.bin the link",
-		"dst_present_is":   "size+4097 bytes of the same pattern xor 0xA5, mode 0660 (for the link kinds of destination: that file is dst.real and dst.bin the link); a directory has mode 0755",
+		"dst_present_is":   "size+4097 bytes of the same pattern xor 0xA5, mode 0660 (for the link kinds of destination: that file is dst.real and dst.bin the link; present-special: mode 0660 + setgid + sticky); a directory has mode 0755",
+		"modes_are":        "src_mode is written the Unix way (04000 setuid, 02000 setgid, 01000 sticky); equality of modes is judged on rwx and these three bits",
 		"planted_on":       "the innermost file system (the base of a BasePathFS, the file system below a RoFS), never through the wrappers",
 		"rerun":            "./check C16 quick -replay <this file>",
 	}
@@ -1659,6 +1927,28 @@ func sameTrace(a, b []cons) bool {
 }
 
 var errKinds = []string{"sentinel", "permdenied"}
+
+// errKindsBelow are the further error values injected where the seam lies
+// below a wrapper: there the value passes through code that inspects its type
+// (FromPathError, FromLinkError, a RoFS that maps errors) before the copy sees
+// it. Above every wrapper the value goes straight to copy.go, which only
+// compares it with nil: two values are enough there.
+var errKindsBelow = []string{"errno", "linkerror"}
+
+var errKindsAll = append(append([]string{}, errKinds...), errKindsBelow...)
+
+// belowAllVariants: the further values for every function variant (thorough)
+// or for the sha512 variants only (quick: CopyFile is CopyFileHash with a nil
+// hasher, the sha512 variant makes every call the others make).
+var belowAllVariants bool
+
+func errKindsFor(sc scenario) []string {
+	if (seamInside(sc.SrcFS) || seamInside(sc.DstFS)) && (belowAllVariants || sc.Hasher == "sha512") {
+		return errKindsAll
+	}
+
+	return errKinds
+}
 
 // checkConverse applies oracle (c) and the no-panic requirement to one run.
 func checkConverse(bk *book, sc scenario, pl plan, base []cons, res result) {
@@ -1863,7 +2153,7 @@ func explore(sc scenario, bk *book, st *stats) (result, error) {
 		nth[c]++
 		class, required := classOf(c)
 
-		for _, e := range errKinds {
+		for _, e := range errKindsFor(sc) {
 			pl := plan{K: k, Side: c.Side, Primitive: c.Fn.String(), Nth: nth[c], Err: e}
 
 			res, err := run(sc, pl)
@@ -1960,7 +2250,7 @@ func exploreSequel(head scenario, bk *book, st *stats) error {
 	for k, c := range pre {
 		nth[c]++
 
-		for _, e := range errKinds {
+		for _, e := range errKindsFor(head) {
 			sc := head
 			sc.noFaults = true
 			sc.Before = &prelude{
@@ -2056,8 +2346,14 @@ func space(tier string) (sizes []int, pairs []fsPair, hashFS []string, used []bo
 		pairs = append(pairs, fsPair{fsBase, fsMem, false}, fsPair{fsMem, fsBase, false},
 			fsPair{fsOrefa, fsRo, false}, fsPair{fsMem, fsMem, true})
 
+		// the seam below the wrapper, on either side (seamInside)
+		pairs = append(pairs, fsPair{fsBaseOverFail, fsMem, false}, fsPair{fsMem, fsBaseOverFail, false})
+		hashFS = append(hashFS, fsBaseOverFail)
+
 		return sizes, pairs, hashFS, []bool{false, true}
 	}
+
+	hashFS = append(hashFS, fsBaseOverFail, fsBaseOverFailOrefa, fsRoOverFail)
 
 	sizes = []int{0, 1, 32767, 32768, 32769, 65536, 65537}
 
@@ -2069,6 +2365,18 @@ func space(tier string) (sizes []int, pairs []fsPair, hashFS []string, used []bo
 
 	for _, x := range []string{fsMem, fsOrefa, fsOs, fsBase} {
 		pairs = append(pairs, fsPair{x, x, true})
+	}
+
+	// the seam below the wrapper (seamInside): every such stack as destination
+	// and as source of a leaf and of each other
+	for _, d := range []string{fsBaseOverFail, fsBaseOverFailOrefa} {
+		for _, s := range []string{fsMem, fsOrefa, fsBaseOverFail, fsRoOverFail} {
+			pairs = append(pairs, fsPair{d, s, false})
+		}
+	}
+
+	for _, s := range []string{fsBaseOverFail, fsBaseOverFailOrefa, fsRoOverFail} {
+		pairs = append(pairs, fsPair{fsMem, s, false}, fsPair{fsOrefa, s, false})
 	}
 
 	return sizes, pairs, hashFS, []bool{false, true}
@@ -2100,6 +2408,29 @@ func scenarios(tier string) []scenario {
 						out = append(out, scenario{
 							Func: "CopyFileHash", Hasher: "sha512", HasherUsed: u, DstFS: p.dst, SrcFS: p.src, Shared: p.shared, Size: size, DstState: ds, SrcMode: mode,
 							noFaults: u && !usedFaults(tier),
+						})
+					}
+				}
+			}
+		}
+	}
+
+	// special bits (see modeSpace): source modes x destination states that
+	// include a file carrying special bits, fault-free, on every pair
+	ms := modeSpaceFor(tier)
+
+	for _, p := range pairs {
+		for _, size := range ms.sizes {
+			for _, ds := range []string{kDstAbsent, kDstPresent, kDstSpecial} {
+				for _, mode := range ms.modes() {
+					if mode == 0o644 && ds != kDstSpecial && inSizes(sizes, size) {
+						continue // among the plain scenarios above
+					}
+
+					for _, v := range ms.variants {
+						out = append(out, scenario{
+							Func: v[0], Hasher: v[1], DstFS: p.dst, SrcFS: p.src, Shared: p.shared, Size: size,
+							DstState: ds, SrcMode: mode, noFaults: !ms.faults(v[1], size, mode, ds),
 						})
 					}
 				}
@@ -2196,6 +2527,10 @@ func scenarios(tier string) []scenario {
 						continue
 					}
 
+					if !sp.seamInside && (seamInside(p.src) || seamInside(p.dst)) {
+						continue
+					}
+
 					// the process has one current directory: two OsFS directories cannot both be it
 					if !p.shared && p.src == fsOs && p.dst == fsOs && spellIsRelative(ss) && spellIsRelative(dsp) {
 						skippedSpellings++
@@ -2221,7 +2556,7 @@ func scenarios(tier string) []scenario {
 
 		for _, f := range hashFS {
 			for _, ss := range sp.spellings {
-				if ss == spClean {
+				if ss == spClean || (!sp.seamInside && seamInside(f)) {
 					continue
 				}
 
@@ -2265,6 +2600,16 @@ func scenarios(tier string) []scenario {
 
 func usedFaults(tier string) bool { return tier != "quick" }
 
+func inSizes(sizes []int, n int) bool {
+	for _, x := range sizes {
+		if x == n {
+			return true
+		}
+	}
+
+	return false
+}
+
 // sequelSpace is the part of the space that makes two calls with one hasher.
 type sequelSpace struct {
 	firstSizes  []int // size of the file of the earlier call
@@ -2291,11 +2636,79 @@ func sequels(tier string) sequelSpace {
 	}
 }
 
+// modeSpace is the part of the space that varies the special bits of the
+// modes on both sides.
+//
+// General lesson: the last step of a copy sets the mode, and code that skips
+// "setting what is already there" decides it through a PROJECTION of the mode
+// (the rwx bits). The modes that tell are then the ones that are EQUAL to what
+// the destination has at that moment in the projection and DIFFERENT outside
+// it - not arbitrary ones. What the destination has at that moment is known:
+// what Create gives under the umask in force (0666 &^ umask) for a new file,
+// and the mode it had before for an existing one (truncation keeps it). So
+// the rwx parts are taken from those two, crossed with every set of special
+// bits on the source, and with a destination that carries special bits itself
+// (which a plain source of the same rwx bits must clear).
+type modeSpace struct {
+	rwx      []uint32    // rwx parts of the source mode
+	special  []uint32    // sets of special bits of the source mode (Unix: 04000 setuid, 02000 setgid, 01000 sticky)
+	sizes    []int       //
+	variants [][2]string // function variants that copy
+	faults   func(hasher string, size int, mode uint32, ds string) bool
+	text     string
+}
+
+// umaskInForce is the umask main and newKit set.
+const umaskInForce = 0o022
+
+func (m modeSpace) modes() []uint32 {
+	var out []uint32
+
+	for _, r := range m.rwx {
+		for _, s := range m.special {
+			out = append(out, r|s)
+		}
+	}
+
+	return out
+}
+
+func modeSpaceFor(tier string) modeSpace {
+	created := uint32(0o666 &^ umaskInForce) // rwx bits of a file Create has just made
+
+	if tier == "quick" {
+		return modeSpace{
+			rwx:      []uint32{created, otherMode},
+			special:  []uint32{0, 0o4000, 0o2000, 0o1000, 0o7000},
+			sizes:    []int{0, 32769},
+			variants: [][2]string{{"CopyFileHash", "sha512"}}, // makes every call CopyFile makes
+			faults:   func(string, int, uint32, string) bool { return false },
+			text: "source mode = rwx bits in {0666&^umask = what Create gives, 0660 = what the existing destination has} | special bits in {none, setuid, setgid, sticky, all three} " +
+				"x destination {absent, present (0660), present-special (0660+setgid+sticky)} x sizes [0 32769] x every fs pair x CopyFileHash(sha512), fault-free",
+		}
+	}
+
+	return modeSpace{
+		rwx:      []uint32{created, otherMode, 0o600, 0o755, 0},
+		special:  []uint32{0, 0o4000, 0o2000, 0o1000, 0o6000, 0o5000, 0o3000, 0o7000},
+		sizes:    []int{0, 1, 32769},
+		variants: [][2]string{{"CopyFile", "none"}, {"CopyFileHash", "nil"}, {"CopyFileHash", "sha512"}},
+		// every single-fault plan where the two modes differ in the special bits only
+		faults: func(hasher string, size int, mode uint32, ds string) bool {
+			return hasher == "sha512" && size <= 1 && (mode&0o777 == created && ds == kDstAbsent || mode&0o777 == otherMode && ds != kDstAbsent)
+		},
+		text: "source mode = rwx bits in {0666&^umask = what Create gives, 0660 = what the existing destination has, 0600, 0755, 0} | every one of the 8 sets of special bits " +
+			"x destination {absent, present (0660), present-special (0660+setgid+sticky)} x sizes [0 1 32769] x every fs pair x every function variant that copies, fault-free; " +
+			"every single-fault plan for CopyFileHash(sha512) at sizes 0 and 1 where the rwx bits of the source equal those the destination has before the Chmod",
+	}
+}
+
 // spellingSpace is the part of the space that varies how the two operands
 // are written.
 type spellingSpace struct {
 	spellings  []string
 	sizes      []int
+	seamInside bool                               // also on the stacks whose seam is inside (they resolve names as the same stack without the seam does)
 	variant    func(hasher string) bool           // which function variants copy
 	faults     func(hasher string, size int) bool // single-fault plans too?
 	faultsText string
@@ -2313,12 +2726,13 @@ func spellSpace(tier string) spellingSpace {
 			// CopyFile is CopyFileHash with a nil hasher: the sha512 variant makes every call the others make
 			variant:    func(hasher string) bool { return hasher != "nil" },
 			faults:     func(string, int) bool { return false },
-			faultsText: "CopyFile, CopyFileHash(sha512) and HashFile, fault-free",
+			faultsText: "CopyFile, CopyFileHash(sha512) and HashFile, fault-free; not on the stacks whose seam is below the wrapper (fault-free they are BasePathFS(MemFS), which is there)",
 		}
 	}
 
 	return spellingSpace{
 		spellings:  all,
+		seamInside: true,
 		sizes:      []int{0, 1, 32769},
 		variant:    func(string) bool { return true },
 		faults:     func(hasher string, size int) bool { return hasher == "sha512" && size <= 1 },
@@ -2481,6 +2895,8 @@ func main() {
 
 	verifrt.SetMode(verifrt.ModeSeq)
 
+	belowAllVariants = *tier != "quick"
+
 	_ = avfs.SetUMask(0o022)
 
 	tmpfs := setupScratch()
@@ -2625,6 +3041,10 @@ func main() {
 	sh := shapes(*tier)
 	sq := sequels(*tier)
 	spl := spellSpace(*tier)
+	mds := modeSpaceFor(*tier)
+	seamText := "fs stacks whose FailFS lies below the wrapper: " + fmt.Sprint(seamStacks(pairNames, st.hashFS)) + "; on the pairs that hold one the injected error is one of " + fmt.Sprint(errKindsAll) +
+		" (opaque error, *fs.PathError, bare errno, *os.LinkError; the last two for " + map[bool]string{true: "every function variant", false: "the sha512 variants"}[belowAllVariants] +
+		"), elsewhere one of " + fmt.Sprint(errKinds)
 	spellText := "every (spelling of the source operand, spelling of the destination operand) of " + fmt.Sprint(spellNames(spl.spellings)) +
 		" except clean/clean (= everything else) x every fs pair x sizes " + fmt.Sprint(spl.sizes) + " x destination {absent, present} x " + spl.faultsText +
 		"; HashFile: every spelling of its operand on every hashfile fs"
@@ -2642,7 +3062,7 @@ func main() {
 		"evaluations":         st.runs,
 		"distinct_nontrivial": len(st.faultClasses),
 		"rule": "evaluations = executions of a scenario (the real CopyFile/CopyFileHash/HashFile, preceded in a two-call history by the earlier call) on fresh instances (2 fault-free runs per scenario - 1 for a scenario that is run fault-free only - + one run per " +
-			"(consultation index k of the fault-free trace, error E in {sentinel, PathError{ErrPermDenied}}) + for the head of a two-call history one run per (consultation index k of the earlier call, E)); distinct_nontrivial = number of distinct " +
+			"(consultation index k of the fault-free trace, error E in {sentinel, PathError{ErrPermDenied}; also bare errno and *os.LinkError where the seam lies below a wrapper}) + for the head of a two-call history one run per (consultation index k of the earlier call, E)); distinct_nontrivial = number of distinct " +
 			"(function variant, side, FnVFS primitive, E) fault classes whose injected consultation was actually reached and returned E in the run " +
 			"(verified against the run's own trace)",
 		"samples":                       st.samples,
@@ -2659,6 +3079,10 @@ func main() {
 		"fs_pairs(dst<-src)":                         pairNames,
 		"hashfile_fs":                                st.hashFS,
 		"errors_injected":                            errKinds,
+		"errors_injected_below_a_wrapper":            errKindsAll,
+		"seam_below_wrapper":                         seamText,
+		"mode_space":                                 mds.text,
+		"mode_source_modes(unix octal)":              octals(mds.modes()),
 		"fault_free_traces":                          st.baseTraces,
 		"fault_free_trace_lengths":                   lensToMap(st.traceLens),
 		"plans_injected_per_primitive":               st.injected,
@@ -2671,7 +3095,8 @@ func main() {
 		"exhaustive":                                 exhaustive,
 		"bound": "single fault per run; every k of every fault-free trace; " + *tier + " space. Shapes: every (kind of source path, kind of destination path) of the listed kinds x shape sizes x every fs pair x every function variant; on them: " +
 			sh.faultsText + ". Hasher on entry: fresh (everything above); written to by the caller (every plain scenario of the sha512 variants, " + usedText +
-			"); left behind by an earlier call on the same hasher: " + sq.text + ". Spelling of the path operands: " + spellText,
+			"); left behind by an earlier call on the same hasher: " + sq.text + ". Spelling of the path operands: " + spellText +
+			". Special bits of the modes: " + mds.text + ". Order of the layers and value of the error: " + seamText,
 		"operand_spellings":                                            spellNames(spl.spellings),
 		"operand_spelling_space":                                       spellText,
 		"operand_spelling_sizes":                                       spl.sizes,
@@ -2699,7 +3124,11 @@ func main() {
 			"the hasher is sha512 (or nil); its state on entry is one of: fresh, 5 bytes written by the caller (" + usedText + "), what an earlier CopyFileHash/HashFile of another file left in it (" + sq.text +
 				"); no third call, no hasher shared by overlapping calls",
 			"FailFS is the fault-injection seam: a failure is a non-nil return of the FailFunc before the base primitive runs; partial writes/short reads of a base file system are not modelled",
-			"source sizes " + fmt.Sprint(sizes) + " with one deterministic non-periodic content; destination absent or present (longer, mode 0660); source mode 0644/0400; administrator user; umask 022",
+			"source sizes " + fmt.Sprint(sizes) + " with one deterministic non-periodic content; destination absent or present (longer, mode 0660); source mode 0644/0400 (fault-free also 0666/0777); administrator user; umask 022",
+			"modes: " + mds.text + "; 'the source's permission bits' is judged on the twelve bits chmod carries (rwx and setuid, setgid, sticky), which every file system of the library stores; " +
+				"the start states are planted through the innermost file system and read back (a mode that did not take is a harness error)",
+			"layers: " + seamText + "; FailFS(wrapper(x)) everywhere else; no stack with two wrappers above the seam; a shared instance is never one with its seam inside (its two sides could not be told apart); " +
+				"an injected *fs.PathError / *os.LinkError names the path the failing primitive was given, or - for a primitive of an open file that has none (Sync) - the path of that side's file in the name space of the seam",
 			"shapes: source path of kinds " + fmt.Sprint(sh.srcKinds) + " x destination path of kinds " + fmt.Sprint(sh.dstKinds) + " x sizes " + fmt.Sprint(sh.sizes) +
 				" (the empty source performs no Write), planted on the innermost file system (links with relative targets in the same directory, symlink-abs: absolute in the innermost name space); " +
 				"link kinds are skipped where the innermost file system has no symbolic links (OrefaFS); " + sh.faultsText,
@@ -2734,6 +3163,42 @@ func main() {
 	_ = os.RemoveAll(scratchRoot)
 
 	os.Exit(code)
+}
+
+// seamStacks lists the stacks in use whose seam is inside.
+func seamStacks(pairs []string, hashFS map[string]int) []string {
+	seen := map[string]bool{}
+
+	for _, n := range []string{fsBaseOverFail, fsBaseOverFailOrefa, fsRoOverFail} {
+		for _, p := range pairs {
+			if strings.HasPrefix(p, n+"<-") || strings.HasSuffix(p, "<-"+n) {
+				seen[n] = true
+			}
+		}
+
+		if hashFS[n] > 0 {
+			seen[n] = true
+		}
+	}
+
+	var out []string
+
+	for n := range seen {
+		out = append(out, n)
+	}
+
+	sort.Strings(out)
+
+	return out
+}
+
+func octals(ms []uint32) []string {
+	out := make([]string, len(ms))
+	for i, m := range ms {
+		out[i] = fmt.Sprintf("%#o", m)
+	}
+
+	return out
 }
 
 // spellNames lists spellings by the names used in signatures and evidence.
